@@ -30,7 +30,17 @@ MpuSit(St, c, r) ==
        {<<"mpu-ctype", up.ctype # None>>, <<"mpu-meta", up.meta.user # None>>, <<"mpu-tags", up.tags # None>>,
         <<"mpu-class", up.class # "STANDARD">>, <<"mpu-parts", Len(up.parts) > 0>>}
   ELSE {}
-CStep(c) == Step(c) /\ sits' = <<CopySit(S, c, Apply(S, c).r) \cup MpuSit(S, c, Apply(S, c).r)>>
+\* DeleteObject: key-only / by version id  x  what is targeted (an object version, a delete marker, nothing;
+\* for a version id also whether it is the current one)  x  versioning status of the bucket - the result carries
+\* the version id removed or created and whether it is a delete marker.
+DelSit(St, c, r) ==
+  IF c.op = "DeleteObject" /\ r.err = "" /\ St.bver[c.b] # "Absent"
+  THEN LET vs == St.objs[c.b][c.k]
+           i == IF c.vid = -1 THEN LatestIdx(vs) ELSE Idx(vs, c.vid)
+           target == IF i = 0 THEN "missing" ELSE IF vs[i].dm THEN "marker" ELSE "object"
+       IN {<<"del", IF c.vid = -1 THEN "key" ELSE "version", target, i # 0 /\ vs[i].latest, St.bver[c.b]>>}
+  ELSE {}
+CStep(c) == Step(c) /\ sits' = <<CopySit(S, c, Apply(S, c).r) \cup MpuSit(S, c, Apply(S, c).r) \cup DelSit(S, c, Apply(S, c).r)>>
 CoverInit == Init /\ sits = <<>> /\ TLCSet(9, {})
 CoverNext == S.clock < MaxClock /\ \E c \in Calls(S) : CStep(c)
 CopyCover ==
